@@ -4,7 +4,11 @@ CORE = ["bn254", "bls12-381", "bls24-315", "bw6-761"]
 ALL = ["bn254", "bls12-377", "bls12-381", "bls24-315", "bls24-317", "bw6-633", "bw6-761"]
 
 
+NONCORE = [c for c in ALL if c not in CORE]
+
+
 def _curves(tier):
+    # quick: the 4 core curves at full counts here, the 3 others at half counts through the "*.nc" jobs below
     return CORE if tier == "quick" else ALL
 
 
@@ -13,7 +17,9 @@ RULE = ("part A (Pedersen PoK, SHPLONK, fflonk, mpcsetup update proofs, kzg.MpcS
         "string, integer, slice length; unexported fields included) replaced by {random, zero/identity, the same component of another honest proof, "
         "+1 / +generator, negation, + a point of order coprime to r}, or (iii) a statement/proof assembled by the harness from known discrete "
         "logarithms (accepting and near-miss, multi-component forgeries); non-trivial = every forged/tampered/trapdoor-made case, and honest cases of "
-        "minimal or non-power-of-two size; distinct = distinct (scheme, curve, statement, site, mutation) hashes")
+        "minimal or non-power-of-two size; (iv) history cases: a key / SRS / proof / ceremony object is used, reloaded with other material through its own "
+        "ReadFrom / UnsafeReadFrom (or field assignment where the fields are plain exported data) and used again — every verdict must be the oracle's for the "
+        "new material and equal to a freshly constructed object's; distinct = distinct (scheme, curve, statement, site, mutation) hashes")
 
 ASSUMPTIONS = [
     "part A oracle = the verifier's pairing equation evaluated as a scalar identity mod r in math/big: the harness creates every setup itself "
@@ -31,12 +37,24 @@ ASSUMPTIONS = [
     "generators while listed in known_findings.json; the probe TestC17a_ProbeF15 re-observes it on every run",
 ]
 
-JOBS = [
-    dict(name="a.pedersen", pkg="c17a", run="^TestC17a_Pedersen(Batch|Setup)?$", shards=_curves, checks=(60, 600), timeout=(1500, 5000)),
-    dict(name="a.shplonk", pkg="c17a", run="^TestC17a_Shplonk$", shards=_curves, checks=(80, 800), timeout=(1500, 5000)),
-    dict(name="a.fflonk", pkg="c17a", run="^TestC17a_Fflonk$", shards=_curves, checks=(80, 800), timeout=(1500, 5000)),
-    dict(name="a.mpcupdate", pkg="c17a", run="^TestC17a_MpcUpdate$", shards=_curves, checks=(60, 600), timeout=(1500, 5000)),
-    dict(name="a.sameratio", pkg="c17a", run="^TestC17a_SameRatioMany$", shards=_curves, checks=(500, 5000), timeout=(1500, 5000)),
-    dict(name="a.kzgmpc", pkg="c17a", run="^TestC17a_KzgMpcSetup(Lib)?$", shards=_curves, checks=(30, 300), timeout=(1500, 5000), weight=2),
-    dict(name="a.regress", pkg="c17a", run="^TestC17a_(Regress.*|ProbeF15)$", rapid=False, timeout=(1500, 3000)),
-]
+def _kind(name, run, q, t, **kw):
+    """one job kind: core curves (quick) / all curves (thorough) at full counts + the non-core curves at half counts in quick"""
+    return [dict(name=name, pkg="c17a", run=run, shards=_curves, checks=(q, t), timeout=(1500, 5000), **kw),
+            dict(name=name + ".nc", pkg="c17a", run=run, shards=NONCORE, checks=(max(q // 2, 1), t), timeout=(1500, 5000), tiers=("quick",), **kw)]
+
+
+JOBS = (
+    _kind("a.pedersen", "^TestC17a_Pedersen(Batch|Setup)?$", 60, 600)
+    + _kind("a.shplonk", "^TestC17a_Shplonk$", 70, 800)
+    + _kind("a.fflonk", "^TestC17a_Fflonk$", 70, 800)
+    + _kind("a.mpcupdate", "^TestC17a_MpcUpdate$", 60, 600)
+    + _kind("a.sameratio", "^TestC17a_SameRatioMany$", 400, 5000)
+    + _kind("a.kzgmpc", "^TestC17a_KzgMpcSetup$", 24, 300, weight=2)
+    + _kind("a.kzgmpclib", "^TestC17a_KzgMpcSetupLib$", 30, 300)
+    + [dict(name="a.history", pkg="c17a", run="^TestC17a_History$", shards=ALL, checks=(12, 120), timeout=(1500, 5000)),
+       dict(name="a.regress", pkg="c17a", run="^TestC17a_(Regress.*|ProbeF15)$", rapid=False, timeout=(1500, 3000))]
+)
+
+# classes that every (complete) run must populate
+MANDATORY = ["history:key_object_reloaded"] + ["history:key_object_reloaded:" + s for s in (
+    "pedersen_vk", "pedersen_pk", "shplonk_srs", "fflonk_srs", "shplonk_proof", "fflonk_proof", "mpcsetup_proof", "kzg_mpcsetup")]
